@@ -147,8 +147,9 @@ func c01(tier string, args []string) int {
 	} else {
 		run.SetDeadline(budget(tier))
 	}
-	runFamilies(run, stdFamilies(tier), nil, c01State)
+	// trees first: they carry the histories (do/undo, null moves, cached flags); under a time cap they are the part to keep
 	runTree(run, seeds, treeDepth, nil, c01State)
+	runFamilies(run, stdFamilies(tier), nil, c01State)
 	c01Perft(run, space.AllSeeds(), perftDepth)
 	return run.Finish()
 }
